@@ -101,6 +101,9 @@ type Path struct {
 	knownHit map[string]bool // known-finding ids whose region was entered (this path excluded them)
 	notes   []string
 	czN     int
+	ranges  map[string]ival
+	ivalMemo map[*Term]ival
+	quickHits int
 	auxVars []*Term
 	model   map[string]uint64 // a model of the current pc (nil = none cached)
 	evalMemo map[*Term]evalRes
@@ -137,6 +140,7 @@ func (p *Path) assert(t *Term) {
 		}
 	}
 	p.pc = append(p.pc, t)
+	p.learn(t, true)
 	ref := p.em.Ref(t)
 	p.solver.Send(p.em.Flush())
 	p.solver.Send("(assert " + ref + ")\n")
@@ -243,7 +247,13 @@ func (p *Path) Decide(cond *Term) bool {
 		}
 		return d.B
 	}
-	// frontier. Use the cached model of pc to get one direction for free.
+	// frontier. Interval reasoning settles many conditions (digits, ASCII ranges, small counters) outright.
+	if v, ok := p.quickBool(cond); ok {
+		p.quickHits++
+		p.trace = append(p.trace, Dec{K: 'f', B: v})
+		return v
+	}
+	// Use the cached model of pc to get one direction for free.
 	if v, ok := p.evalUnder(cond); ok {
 		p.modelHits++
 		dir := v == 1
